@@ -428,6 +428,18 @@ theorem entry_objects_reset :
     ∀ e ∈ OV.Gen.C14Globals.entryRows, e.name ≠ "Converter" → e.ok = true := by
   decide +kernel
 
+/-- The table is closed under "keeps an object": every package class whose object an entry object builds
+in `__init__` and stores on `self` (the matcher of a rule, the inner conversion pass of
+`ConvertVersionPass`, …) has a row of its own — so `entry_objects_reset` also covers the objects a
+persistent object owns (a pass that kept ONE stateful converter for all its calls would add the
+converter's row, and that row reads its counters before assigning them). -/
+theorem held_objects_have_rows :
+    ∀ e ∈ OV.Gen.C14Globals.entryRows, ∀ h ∈ e.held,
+      (OV.Gen.C14Globals.entryRows.any (fun r => r.name == h)) = true := by
+  decide +kernel
+
+example : (OV.Gen.C14Globals.entryRows.filter (fun e => !e.held.isEmpty)).length ≥ 2 := by decide +kernel
+
 /-- `RewriteRuleSet._value_names` (the names of the model being rewritten; fresh `val_<n>` names are
 drawn against it) is recomputed by `apply_to_model` from the model at the start of every call — part
 of `entry_objects_reset` — and the private worker `_apply_to_graph_or_function`, which relies on it, is
